@@ -148,8 +148,24 @@ def run(ctx):
                     ctx.violated(r1, (rel, "<module>"), vg[0], "jax differentiates with respect to an argument that is not the free-parameter vector", expected="argnums=0 (pars)", found=f"argnums={an}, params={params}", node=vg[0])
             for nm, node in (("_jitted_objective_and_grad", jg), ("_jitted_objective", jn)):
                 kws = {k.arg: k.value for k in node.keywords} if isinstance(node, ast.Call) else {}
-                sa = A.const_value(kws["static_argnums"]) if "static_argnums" in kws else ()
+                sa_node = kws.get("static_argnums")
+                if isinstance(sa_node, ast.Name) and isinstance(repo.module(rel).assigns.get(sa_node.id), ast.AST):
+                    sa_node = repo.module(rel).assigns[sa_node.id]  # a module-level constant shared by both jit calls
+                sa = A.const_value(sa_node) if sa_node is not None and A.is_const(sa_node) else (() if sa_node is None else None)
+                if sa is None:
+                    ctx.unrecognised(r1, (rel, "<module>"), node, f"{nm}: static_argnums is not a literal")
+                    continue
                 sa = (sa,) if isinstance(sa, int) else tuple(sa or ())
+                # in terms of the parameters of _final_objective as defined today: the arrays are traced, everything else is static
+                traced_ = {i_ for i_, p_ in enumerate(params) if p_ in ("pars", "data", "fixed_values")}
+                if len(traced_) == 3 and len(params) == 8 and traced_ != {0, 1, 2}:
+                    if set(sa) & traced_:
+                        ctx.violated(r1, (rel, "<module>"), node, f"{nm}: a traced argument (pars/data/fixed values) is declared static: its value is baked into the compiled function (stale results, no gradient flow)", expected=f"static_argnums within {sorted(set(range(8)) - traced_)}", found=str(sa), node=node)
+                    elif set(sa) >= set(range(8)) - traced_:
+                        ctx.holds(r1, f"{rel}::{nm}", f"static_argnums={sa} (index pieces, objective, pdf), traced {sorted(traced_)}")
+                    else:
+                        ctx.violated(r1, (rel, "<module>"), node, f"{nm}: non-array arguments (index tuples, callables, model) are not all static", expected=str(tuple(sorted(set(range(8)) - traced_))), found=str(sa), node=node)
+                    continue
                 if set(sa) & {0, 1, 2}:
                     ctx.violated(r1, (rel, "<module>"), node, f"{nm}: a traced argument (pars/data/fixed values) is declared static: its value is baked into the compiled function (stale results, no gradient flow)", expected="static_argnums within 3..7", found=str(sa), node=node)
                 elif set(sa) >= {3, 4, 5, 6, 7}:
